@@ -343,6 +343,12 @@ func ArmTimer(ch chan time.Time, d int64, periodic bool) {}
 // SelectAny makes the engine explore every ready case of a select statement (Go picks one at random).
 func SelectAny() {}
 
+// Preemptions (engine only): from here on the running goroutine may be preempted, at most k times on a
+// path, before a lock acquisition or an atomic operation and after a lock release, in favour of any other
+// runnable goroutine; the engine explores every such schedule. Natively a no-op: the Go scheduler decides,
+// so harnesses that depend on it are engine-only (//vx:noreplay).
+func Preemptions(k int) {}
+
 func ModelNewTimer(d time.Duration) *time.Timer {
 	ch := make(chan time.Time, 1)
 	ArmTimer(ch, int64(d), false)
